@@ -47,12 +47,16 @@ type Stats struct {
 const simrtPath = "/zzsim/simrt"
 const simsyncPath = "/zzsim/simsync"
 
-// stmtYieldFiles get a yield before every statement (store code that C18
-// interleaves at statement granularity).
+// stmtYieldFiles get a yield before every statement: store code that C18
+// interleaves at statement granularity, and the file readers, whose loops are
+// driven by counts taken from the (possibly corrupted) input - there every
+// iteration has to count as a step, or a loop that only spins is never
+// stopped by the step cap.
 var stmtYieldFiles = map[string]bool{
 	"factstore/factstore.go":     true,
 	"factstore/temporal.go":      true,
 	"factstore/interval_tree.go": true,
+	"factstore/simplecolumn.go":  true,
 }
 
 // Instrument rewrites the module rooted at dir in place.
